@@ -41,6 +41,8 @@ def closure(facts, kinds, taker, without_role_taker_rule=()):
                 new.add((s, "attends", o))
             if f == "chairs" and kinds.get(taker[s]) in ("Delegate", "Convener"):   # Chairs < Attends, the field lives on a subclass of the
                 new.add((taker[s], "attends", o))                       # declared role taker type
+            if f == "shows":                          # Shows < Guides < Sees; the class has no field for the middle level
+                new.add((s, "sees", o))
             if f == "guides" and kinds.get(taker[s]) in ("Delegate", "Convener"):   # Guides < Sees, no inverse involved
                 new.add((taker[s], "sees", o))
             if f == "under":                          # the same transitive property declared on another class
@@ -79,7 +81,7 @@ def observe_fields(om, named):
         elif isinstance(o, getattr(om, "Unit", ())):
             fl = ("under",)
         elif isinstance(o, getattr(om, "Convener", ())):
-            fl = ("attends", "leads", "sees")
+            fl = ("attends", "leads", "sees", "shows")
         elif isinstance(o, getattr(om, "Delegate", ())):
             fl = ("attends", "sees")
         elif isinstance(o, getattr(om, "Visitor", ())):
